@@ -29,6 +29,9 @@ type treeCase struct {
 	Prog   *minijs.Node `json:"prog"`
 	Decor  []byte       `json:"decor"`
 	Trivia []byte       `json:"trivia"`
+	// ASI (enumerations only): instead of the random trivia rendering, every statement terminator
+	// that 7.9.1 lets go is dropped and, where a line terminator is needed, replaced by this text.
+	ASI string `json:"asi,omitempty"`
 }
 
 func parse(src string) (prog *ast.Program, err error, panicked interface{}) {
@@ -80,8 +83,16 @@ func checkTree(c treeCase) harness.Outcome {
 	_, decorated := minijs.Render(c.Prog, c.Decor, minijs.LayoutOpts{})
 	steer, steerIDs := steering()
 	steer.Trivia = c.Trivia
+	if c.ASI != "" {
+		steer.Trivia = nil
+		steer.ForceASI = c.ASI
+		if steer.NoCommentLT && strings.HasPrefix(c.ASI, "/*") {
+			steer.ForceASI = "\n"
+			o.Excluded = append(o.Excluded, "C03-ASI-COMMENT-LT")
+		}
+	}
 	ttoks, trivia := minijs.Render(c.Prog, nil, steer)
-	if len(steerIDs) > 0 {
+	if len(steerIDs) > 0 && c.ASI == "" {
 		// count what the layout was steered around: the unsteered text differs
 		if _, raw := minijs.Render(c.Prog, nil, minijs.LayoutOpts{Trivia: c.Trivia}); raw != trivia {
 			o.Excluded = append(o.Excluded, steeredAround(c, raw)...)
